@@ -93,7 +93,7 @@ theorem stable_sync {j0 jo : JobObj} {sp : Sys} (ctx : PassCtx j0 sp) (hwf : WF2
       rw [this]; exact hcomplete
     -- hence no name was added, and every finished ref is frozen
     have hsame : SameFinished j0 sp.d jo.job (sync sp jo).2.1 :=
-      ⟨hg, hres.good, hle.names, hnames (Or.inl hcomplete0), hres.froz, hallfin⟩
+      ⟨hg, hres.good, hle.names, (hnames (Or.inl hcomplete0)).1 hnd, hres.froz, hallfin⟩
     have hview := hsame.view hwf jo.job.maxAttempts
     have hkey := getCondition_finKey_congr sp.clock sp.d jo.job (sync sp jo).2.1 hv.noAdm
       (by rw [hres.adm]; exact hv.noAdm) hstart hle.startTime hle.kill hle.template
